@@ -344,7 +344,7 @@ Definition probe (c : cfg) (w : word) : val :=
 Definition outcome_v (o : word * list nat) : val :=
   L [list_v (list_v n_v) (fst o); list_v nat_v (snd o)].
 
-Definition run_C15 (v : val) : val :=
+Definition run_edit (v : val) : val :=
   let c := v_cfg v in
   let ss := v_steps v in
   L [ probe c (first_word ss);
@@ -374,7 +374,7 @@ Fixpoint all2 {A B} (f : A -> B -> bool) (a : list A) (b : list B) : bool :=
   | _, _ => false
   end.
 
-Definition agree_C15 (strict : bool) (v out : val) : bool :=
+Definition agree_edit (strict : bool) (v out : val) : bool :=
   match out with
   | L [pv; L ch] =>
       val_eqb (probe (v_cfg v) (first_word (v_steps v))) pv
@@ -405,10 +405,91 @@ Definition step_check_v (c : cfg) (s : step) (o : val) : bool :=
   | _ => false
   end.
 
-Definition check_C15 (v out : val) : bool :=
+Definition check_edit (v out : val) : bool :=
   match out with
   | L [pv; L ch] =>
       probe_ok (first_word (v_steps v)) pv
       && all2 (step_check_v (v_cfg v)) (v_steps v) ch
   | _ => false
   end.
+
+(** * Second stream: the chain inside corrupt_spelling, through the public
+    [preprocessing(SpellingCorruption ...)] (artificial mode, probability 1).
+    input  = (2 kinds fd pm itab rtab seed () trigrams words info charmode)
+             itab/rtab: the tables corrupt_spelling builds from the character 3-grams
+             (derived by the harness); words: the whitespace-separated words of the text
+             (ASCII, so that clusters are single code points); info = ((cluster alphabetic
+             punctuation) ...) class oracle for every cluster that can occur;
+             charmode 0: char_edit_prob 0 (exactly one edit per word), 1: char_edit_prob 1
+             (as many chained edits as the word has characters)
+    output = the words of the corrupted text, or (-777)
+    Every output word must be reachable from the input word and the empty exclusion set by
+    exactly that many chained calls with all four kinds enabled, the predicates being
+    can_delete = alphabetic or punctuation, can_swap = both alphabetic. *)
+Definition cls_info := list (str * bool * bool).
+
+Fixpoint info_of (ci : cls_info) (c : cluster) : bool * bool :=
+  match ci with
+  | [] => (false, false)
+  | (c', a, p) :: r => if nlist_eqb c c' then (a, p) else info_of r c
+  end.
+Definition cd_of (ci : cls_info) (w : word) : list bool :=
+  map (fun c => fst (info_of ci c) || snd (info_of ci c)) w.
+Fixpoint cs_of (ci : cls_info) (w : word) : list bool :=
+  match w with
+  | a :: ((b :: _) as r) => (fst (info_of ci a) && fst (info_of ci b)) :: cs_of ci r
+  | _ => []
+  end.
+
+Fixpoint outcomes_all (c : cfg) (ci : cls_info) (ss : list (word * list nat)) : option (list (word * list nat)) :=
+  match ss with
+  | [] => Some []
+  | (w, ex) :: r => opt_app (outcomes c (cd_of ci w) (cs_of ci w) w ex) (outcomes_all c ci r)
+  end.
+
+(** all states after exactly [k] chained calls *)
+Fixpoint reach (c : cfg) (ci : cls_info) (k : nat) (ss : list (word * list nat)) : option (list (word * list nat)) :=
+  match k with
+  | 0 => Some ss
+  | S k' => match outcomes_all c ci ss with
+            | Some ss' => reach c ci k' ss'
+            | None => None
+            end
+  end.
+
+Definition v_info (v : val) : cls_info :=
+  v_list (fun x => (v_str (v_nth 0 x), v_bool (v_nth 1 x), v_bool (v_nth 2 x))) v.
+Definition e2e_words (v : val) : list word := v_list (fun x => singletons (v_str x)) (v_nth 9 v).
+Definition e2e_k (v : val) (w : word) : nat := if v_bool (v_nth 11 v) then Nat.max 1 (length w) else 1.
+Definition e2e_reach (v : val) (w : word) : option (list (word * list nat)) :=
+  reach (v_cfg v) (v_info (v_nth 10 v)) (e2e_k v w) [(w, [])].
+
+Definition run_e2e (v : val) : val :=
+  list_v (fun w => opt_v (list_v (fun s => list_v n_v (concat (fst s)))) (e2e_reach v w)) (e2e_words v).
+
+Definition word_agree (v : val) (w : word) (o : val) : bool :=
+  match o, e2e_reach v w with
+  | L _, Some l => existsb (fun s => nlist_eqb (concat (fst s)) (v_str o)) l
+  | _, _ => false
+  end.
+
+Definition agree_e2e (v out : val) : bool :=
+  match out with
+  | L ws => all2 (word_agree v) (e2e_words v) ws
+  | _ => false
+  end.
+
+(** no panic and no word lost (full_delete is off in this stream) *)
+Definition check_e2e (v out : val) : bool :=
+  match out with
+  | L ws => Nat.eqb (length ws) (length (e2e_words v))
+            && forallb (fun o => match o with L _ => true | _ => false end) ws
+  | _ => false
+  end.
+
+(** * Dispatch *)
+Definition is_e2e (v : val) : bool := Z.eqb (v_z (v_nth 0 v)) 2.
+Definition run_C15 (v : val) : val := if is_e2e v then run_e2e v else run_edit v.
+Definition check_C15 (v out : val) : bool := if is_e2e v then check_e2e v out else check_edit v out.
+Definition agree_C15 (strict : bool) (v out : val) : bool :=
+  if is_e2e v then agree_e2e v out else agree_edit strict v out.
